@@ -38,7 +38,7 @@ def server_methods(fx):
 
 
 def table(fx, fid):
-    eng = sym.Engine(fx, inline_only=set())
+    eng = sym.Engine(fx, inline_only=set(getattr(fx, "new_helpers", ())))
     eng.track_moves = True
     eng.own_closures_only = True
     return eng, eng.table(fid)
@@ -483,7 +483,7 @@ def r19_10(ctx, rep, meths):
     # that one site is a `recv` (awaited in the select), not a try_recv / poll that could be looped
     kinds = []
     for s in sites:
-        f = fx.fns[s.fn]
+        f = fx.fns[s.real_fn]
         b = f["blocks"][s.block]
         t = b.get("term") or {}
         c = cfgmod.term_callee(t) if t.get("k") == "call" else None
